@@ -71,6 +71,9 @@ def order_sets():
     return {"L", "E", "G"}
 
 
+# Option methods taking a closure are analysed as the branch they abbreviate (symex.Engine.combinator)
+KDESUGAR = r"option::Option::<"
+
 OUT2SET = {"Less": {"L"}, "Equal": {"E"}, "Greater": {"G"}}
 FLIP = {"L": "G", "G": "L", "E": "E"}
 
@@ -117,7 +120,7 @@ def analyze(ctx, want):
                 exits.add(s)
     roles = {}
     unwraps_at_exit = []
-    ex = S.Engine(fd, F, Model(), cut_edges=back, inline=GETTERS)
+    ex = S.Engine(fd, F, Model(), cut_edges=back, inline=GETTERS, desugar=KDESUGAR)
     exit_paths = []
     for e in sorted(exits):
         exit_paths += ex.run(e, named_init(fd, ex.fid))
@@ -131,7 +134,7 @@ def analyze(ctx, want):
             clo, payload = r[1], r[2]
             cfn = F.fns[clo[1]]
             ctx.analysed_fn(cfn)
-            ex2 = S.Engine(cfn, F, Model(), cut_edges=cfn.back_edges(), inline=GETTERS)
+            ex2 = S.Engine(cfn, F, Model(), cut_edges=cfn.back_edges(), inline=GETTERS, desugar=KDESUGAR)
             ip = p.fork()
             ip.locals[(ex2.fid, 1)] = ("ref", ("loc", clo, ()), False)
             ip.locals[(ex2.fid, 2)] = payload
@@ -169,13 +172,18 @@ def analyze(ctx, want):
     if not all(roles.values()):
         return
     name2local = {}
+    cnt_ = {}
     for l, n in fd.names().items():
+        cnt_[n] = cnt_.get(n, 0) + 1
+    for l, n in fd.names().items():
+        # same naming as named_init: a source name used by several locals is qualified by the local number
+        name2local.setdefault(n if cnt_[n] == 1 else "%s#%d" % (n, l), l)
         name2local.setdefault(n, l)
     # unwraps at the exit are discharged by the invariant "tid Some => end Some and start Some" (C05.d)
     exit_unwraps = [e for e in rp.events if e[0] == "unwrap"]
 
     # ------------------------------------------------------------------ one transition-loop iteration
-    ex = S.Engine(fd, F, Model(), cut_edges=back, inline=GETTERS, max_paths=40000)
+    ex = S.Engine(fd, F, Model(), cut_edges=back, inline=GETTERS, max_paths=40000, desugar=KDESUGAR)
     init = named_init(fd, ex.fid)
     paths = ex.run(H_tr, init)
     if ex.truncated:
@@ -496,7 +504,7 @@ def analyze(ctx, want):
         ob("C05.d", "exit-unwrap:" + nm, nm in (roles["start"], roles["end"]),
            "unwrap of %s in the result closure: safe because end/type are only ever written together as Some (C05.a/C05.d) and the start is set before any candidate" % nm, fd.loc())
     # match_start: set to Some(index) before the state loop whenever it is None
-    ex = S.Engine(fd, F, Model(), cut_edges=back, inline=GETTERS)
+    ex = S.Engine(fd, F, Model(), cut_edges=back, inline=GETTERS, desugar=KDESUGAR)
     # start at the block that follows the Some edge of the CharIndices::next switch
     init = named_init(fd, ex.fid)
     start_name = roles["start"]
@@ -517,7 +525,7 @@ def analyze(ctx, want):
         ctx.missing("C07.a", "Some edge of the char loop")
     else:
         stop = set(mids) | {H_tr}
-        ex = S.Engine(fd, F, Model(), cut_edges=back, stop_blocks=stop, inline=GETTERS)
+        ex = S.Engine(fd, F, Model(), cut_edges=back, stop_blocks=stop, inline=GETTERS, desugar=KDESUGAR)
         sp_ = ex.run(some_bb, named_init(fd, ex.fid))
         good = True
         n = 0
@@ -543,7 +551,7 @@ def analyze(ctx, want):
         ob("C07.a", "match-start-is-first-index", good and n > 0, det or "start is Some(first index) before candidates are examined (%d paths)" % n, fd.loc())
 
     # ------------------------------------------------------------------ scratch buffers and loop structure
-    ex = S.Engine(fd, F, Model(), cut_edges=back, stop_blocks={H_char}, inline=GETTERS)
+    ex = S.Engine(fd, F, Model(), cut_edges=back, stop_blocks={H_char}, inline=GETTERS, desugar=KDESUGAR)
     entry = ex.run(0, init_params(fd, ex.fid))
     for p in entry:
         if p.end[0] != "stop":
@@ -573,7 +581,7 @@ def analyze(ctx, want):
         for o in sorted(outs):
             if fd.is_unreachable_block(o):
                 continue
-            ex = S.Engine(fd, F, Model(), cut_edges=back, inline=GETTERS)
+            ex = S.Engine(fd, F, Model(), cut_edges=back, inline=GETTERS, desugar=KDESUGAR)
             ps = ex.run(o, named_init(fd, ex.fid))
             for p in ps:
                 cl = [e for e in p.events if e[0] == "call" and re.search(r"Vec::<.*>::clear$", e[2])]
